@@ -59,18 +59,16 @@ MEMBER_OPS = {
 # Everything else located in OMPL code is a violation.  These are planner-internal, not the documented surface; the
 # property demands of the multi-threaded planners that their *solutions* are sound (judged by the path oracle).
 BENIGN = [
-    (r"^pRRT::threadSolve@pRRT\.cpp$",
-     "pRRT reads sol->solution / sol->approxdif without sol->lock as a loop-exit / pre-check hint and re-checks under the "
-     "lock before writing (pRRT.cpp:110,153); a stale read costs one extra iteration, never a wrong write"),
-    (r"^pSBL::threadSolve@pSBL\.cpp$",
-     "pSBL reads sol->found without sol->lock as its loop-exit hint (pSBL.cpp); written once under the lock"),
-    (r"^pSBL::(checkSolution|isPathValid|addMotion|removeMotion|selectMotion)@pSBL\.cpp$",
-     "pSBL's per-motion `valid` flags and grid cells are read optimistically and re-validated under motion->lock / tree.lock"),
-    (r"^PRM::(checkForSolution|addedNewSolution|solve|constructRoadmap|growRoadmap|expandRoadmap|maybeConstructSolution)@PRM\.cpp$",
-     "PRM's addedNewSolution_ / bestCost_ / iterations_ hand-over between the roadmap thread and the solution thread is a "
-     "plain bool/Cost polled every millisecond; the reported path is rebuilt under graphMutex_"),
-    (r"^CForest::", "CForest bookkeeping counters (numPathsShared_/numStatesShared_) updated by planner threads for statistics"),
-    (r"^AnytimePathShortening::", "APS bestCost_ hint read outside lock_; paths are added through the guarded ProblemDefinition"),
+    # (site regex, regex every innermost source line must match, reason)
+    (r"^pRRT::threadSolve@pRRT\.cpp$", r"sol->(solution|approxdif|approxsol)",
+     "pRRT reads sol->solution (loop exit, pRRT.cpp:110) and sol->approxdif (pre-check, :153) without sol->lock as hints and "
+     "re-checks approxdif under the lock before writing; every write is under the lock (model: PStep.upd is one guarded step)"),
+    (r"^pSBL::threadSolve@pSBL\.cpp$", r"sol->found",
+     "pSBL reads sol->found without sol->lock as its loop-exit hint; it is written once, under the lock"),
+    (r"^PRM::addedNewSolution@PRM\.cpp ~ PRM::checkForSolution@PRM\.cpp$|^PRM::(addedNewSolution|checkForSolution)@PRM\.cpp$",
+     r"addedNewSolution_",
+     "PRM's addedNewSolution_ is a plain bool handed from the solution thread to the roadmap thread's termination condition; "
+     "a late read only delays termination, the path itself is built under graphMutex_ and joined before use"),
 ]
 
 
@@ -277,6 +275,8 @@ def judge_path(op_line, out_line):
     d = kv(head)
     info = {"status": d.get("status"), "nstates": int(d.get("nstates", "0")), "approx": d.get("approx")}
     st = d.get("status")
+    if st == "UNKNOWN" and P["planner"] == "APS" and info["nstates"] == 0:
+        return None, info    # AnytimePathShortening reports "budget spent, nothing found" as UNKNOWN
     if st in ("CRASH", "ABORT", "UNKNOWN", "INVALID_START", "INVALID_GOAL", "UNRECOGNIZED_GOAL_TYPE"):
         return "planner status %s on a well-posed problem" % st, info
     n = info["nstates"]
@@ -329,27 +329,40 @@ def parse_tsan(stderr):
     """list of reports: dict(kind, stacks=[[(func, file, line)]], summary)"""
     reps = []
     for block in stderr.split("=================="):
-        m = re.search(r"WARNING: ThreadSanitizer: ([^\n(]+?)\s*\(pid", block)
+        m = re.search(r"WARNING: ThreadSanitizer: (.+?) \(pid=", block)
         if not m:
             continue
         stacks = []
         cur = None
+        first = True
         for ln in block.splitlines():
-            if re.match(r"^  (?:Previous )?(?:[Aa]tomic )?(?:[Rr]ead|[Ww]rite) of size", ln) or \
-                    re.match(r"^  (?:Mutex|Cycle|Thread .* acquired|Location)", ln):
-                cur = [] if re.match(r"^  (?:Previous )?(?:[Aa]tomic )?(?:[Rr]ead|[Ww]rite)", ln) else None
-                if cur is not None:
-                    stacks.append(cur)
+            if ln.startswith("WARNING: ThreadSanitizer"):
+                # reports without an access header (bad unlock, double lock, ...) start their stack right away
+                cur = []
+                stacks.append(cur)
                 continue
-            if re.match(r"^  (?:Thread T\d+|As if synchronized|Location|SUMMARY)", ln):
-                cur = None
+            if re.match(r"^  (?:Previous )?(?:[Aa]tomic )?(?:[Rr]ead|[Ww]rite) of size", ln) or \
+                    re.match(r"^  Mutex M\d+ acquired here while holding", ln):
+                cur = []
+                stacks.append(cur)
+                continue
+            if re.match(r"^  \S", ln) or ln.startswith("SUMMARY"):
+                cur = None      # thread creation stacks, mutex creation stacks, locations: not access sites
                 continue
             fm = FRAME.match(ln)
             if fm and cur is not None:
                 cur.append((fm.group(2), fm.group(3), int(fm.group(4)) if fm.group(4) else 0))
+        stacks = [st for st in stacks if st]
         sm = re.search(r"SUMMARY: ThreadSanitizer: (.*)", block)
         reps.append({"kind": m.group(1).strip(), "stacks": stacks, "summary": sm.group(1)[:300] if sm else ""})
     return reps
+
+
+def benign(site, texts):
+    for rx, trx, reason in BENIGN:
+        if site and re.search(rx, site) and texts and all(re.search(trx, t) for t in texts):
+            return reason
+    return None
 
 
 def short_func(func):
@@ -379,6 +392,15 @@ def attribute(rep, members):
     member = None
     site = None
     in_ompl = False
+    # StateSpace::List / Diagram read getName() of every registered space under the registry lock while a derived
+    # constructor (which registered `this` in the base constructor) is still renaming itself without it
+    flat = [fr for st in rep["stacks"] for fr in st]
+    lister = any("StateSpace::List" in f or "StateSpace::Diagram" in f or
+                 re.search(r"StateSpace::(List|Diagram)\(", source_line(os.path.join(core.VERIF, p) if p.startswith("harness/") else p, l))
+                 for f, p, l in flat)
+    ctor = any(re.search(r"(\w+)::\1\(|::setName\(", f) and "/src/ompl/" in p for f, p, l in flat)
+    if lister and ctor:
+        return "StateSpace::name_", "StateSpace::List~constructor", True
     for stack in rep["stacks"]:
         for func, path, line in stack:
             p = path
@@ -396,11 +418,26 @@ def attribute(rep, members):
                             or m["cls"] in func):
                         member = m["name"]
                         break
-            if is_ompl and site is None:
-                site = "%s@%s" % (short_func(func), os.path.basename(p))
             in_ompl = in_ompl or is_ompl
             if is_ompl:
-                break   # the innermost OMPL frame of this stack decides
+                break   # the innermost OMPL frame of this stack decides the member
+    # site: per stack, the innermost OMPL frame and (when that is a data structure) the innermost planner frame
+    parts = []
+    texts = []
+    for stack in rep["stacks"]:
+        inner = next(((f, p, l) for f, p, l in stack if "/src/ompl/" in p), None)
+        if inner is None:
+            continue
+        desc = "%s@%s" % (short_func(inner[0]), os.path.basename(inner[1]))
+        texts.append(source_line(inner[1], inner[2]))
+        if "/planners/" not in inner[1]:
+            pl = next(((f, p, l) for f, p, l in stack if "/planners/" in p and not short_func(f).startswith("operator")), None)
+            if pl is not None:
+                desc += " in %s@%s" % (short_func(pl[0]), os.path.basename(pl[1]))
+        parts.append(desc)
+    if parts:
+        site = " ~ ".join(sorted(set(parts)))
+    rep["texts"] = texts
     return member, site, in_ompl
 
 
@@ -457,8 +494,12 @@ def planner_ops(rng, tier, tsan):
         for env in chosen:
             threads = rng.range(2, 4) if tsan else rng.range(2, 6)
             budget = rng.choice([300, 800]) if tsan else rng.choice([500, 1500, 4000])
-            if name in ("CForest", "APS"):
-                budget = min(budget, 800 if not tsan else 300)   # these run until the budget is spent
+            if name == "CForest":
+                budget = min(budget, 800 if not tsan else 300)   # runs until the budget is spent
+            if name == "APS":
+                # its main thread polls the condition in a tight loop (each poll is one evaluation), so the budget
+                # has to be large for the planner threads to get anywhere
+                budget = rng.choice([100000, 300000]) if not tsan else 40000
             permille = rng.choice([0, 20, 100])
             ops.append(planner_line(name, threads, budget, permille, env))
     return ops
@@ -660,7 +701,7 @@ def run(ck):
                     ck.count("tsan-ignored:not-in-ompl-code")
                     continue
                 if member is None and rep["kind"] == "data race":
-                    why = next((reason for rx, reason in BENIGN if site and re.search(rx, site)), None)
+                    why = benign(site, rep.get("texts", []))
                     if why is not None:
                         suppressed[site] = suppressed.get(site, 0) + 1
                         ck.count("tsan-suppressed:" + site)
@@ -753,7 +794,7 @@ def replay(ck, data):
             for rep in parse_tsan(res["err"]):
                 member, site, in_ompl = attribute(rep, members)
                 if member or in_ompl:
-                    sup = member is None and any(site and re.search(rx, site) for rx, _ in BENIGN)
+                    sup = member is None and benign(site, rep.get("texts", [])) is not None
                     print("TSan %s: member=%s site=%s%s  %s" % (rep["kind"], member, site, " (allowlisted)" if sup else "", rep["summary"][:160]))
                     if not sup:
                         bad = 1
